@@ -138,7 +138,7 @@ pub fn keys_for(proto: &str, seed: &[u8], want_tag: Option<u8>) -> (Vec<u8>, Vec
     }
 }
 
-fn arr<const N: usize>(v: &[u8]) -> [u8; N] {
+pub fn arr<const N: usize>(v: &[u8]) -> [u8; N] {
     let mut a = [0u8; N];
     for (i, b) in v.iter().take(N).enumerate() {
         a[i] = *b;
@@ -265,11 +265,11 @@ pub fn parse_core(proto: &str, token: &str, key: &[u8], footer: Option<&str>, as
     })
 }
 
-fn b64e(b: &[u8]) -> String {
+pub fn b64e(b: &[u8]) -> String {
     use base64::prelude::*;
     BASE64_URL_SAFE_NO_PAD.encode(b)
 }
-fn b64d(s: &str) -> Option<Vec<u8>> {
+pub fn b64d(s: &str) -> Option<Vec<u8>> {
     use base64::prelude::*;
     BASE64_URL_SAFE_NO_PAD.decode(s).ok()
 }
